@@ -140,6 +140,10 @@ inductive Field
   | admin (v : Str)
   | url (v : Str)
   | ttl (v : Str)
+  /-- `Abstract=` on one line (no continuation lines) -/
+  | abstract (v : Str)
+  /-- a `#` line: skipped as long as the block has no `Path=` yet (after one, it closes the block) -/
+  | comment (v : Str)
 
 /-- the line as it stands in the file, without its line end -/
 def Field.text : Field → Str
@@ -154,6 +158,8 @@ def Field.text : Field → Str
   | .admin v => 65 :: 100 :: 109 :: 105 :: 110 :: 61 :: v
   | .url v => 85 :: 82 :: 76 :: 61 :: v
   | .ttl v => 84 :: 84 :: 76 :: 61 :: v
+  | .abstract v => 65 :: 98 :: 115 :: 116 :: 114 :: 97 :: 99 :: 116 :: 61 :: v
+  | .comment v => 35 :: v
 
 /-- what the documentation asks of a value: no blanks at its end; `+` is not a host name -/
 def Field.Ok : Field → Prop
@@ -164,6 +170,8 @@ def Field.Ok : Field → Prop
   | .admin v => NoTrail v
   | .url v => NoTrail v
   | .ttl v => NoTrail v
+  | .abstract v => NoTrail v ∧ v.getLast? ≠ some 92
+  | .comment v => NoTrail v
   | _ => True
 
 /-- the path as written, without a final slash -/
@@ -194,6 +202,15 @@ theorem pathLe_eq (base : Str) (le : LinkEntry) (p0 : Str) :
   unfold pathLe
   cases isDotPath p0 <;> cases isRelPath p0 <;> simp
 
+/-- `Abstract=`: an empty value sets nothing -/
+def setAbstract (le : LinkEntry) (v : Str) : LinkEntry :=
+  if v.isEmpty then le else { le with e := { le.e with ea := eaSet le.e.ea (lit "ABSTRACT") v } }
+
+theorem setAbstract_eq (le : LinkEntry) (v : Str) :
+    setAbstract le v =
+      { le with e := { le.e with ea := if v.isEmpty then le.e.ea else eaSet le.e.ea (lit "ABSTRACT") v } } := by
+  unfold setAbstract; split <;> rfl
+
 /-- the effect of a field on the entry being built -/
 def Field.apply (base : Str) (st : LinkState) : Field → LinkState
   | .type t => { st with le := { st.le with e := { st.le.e with type := some [t] } } }
@@ -202,6 +219,7 @@ def Field.apply (base : Str) (st : LinkState) : Field → LinkState
   | .host v => { st with le := { st.le with e := { st.le.e with host := some v } } }
   | .port n => { st with le := { st.le with e := { st.le.e with port := some n } } }
   | .numb n => { st with le := { st.le with e := { st.le.e with num := some n } } }
+  | .abstract v => { st with le := setAbstract st.le v }
   | _ => st
 
 theorem toDecInt_last (n : Int) : ∃ c, (toDecInt n).getLast? = some c ∧ isAsciiDigit c = true := by
@@ -263,6 +281,16 @@ theorem Field.strip_text (f : Field) (hf : f.Ok) : strip (f.text ++ [10]) = f.te
   | admin v => exact key 65 _ v (by decide) h61 hf [100, 109, 105, 110] rfl
   | url v => exact key 85 _ v (by decide) h61 hf [82, 76] rfl
   | ttl v => exact key 84 _ v (by decide) h61 hf [84, 76] rfl
+  | abstract v => exact key 65 _ v (by decide) h61 hf.1 [98, 115, 116, 114, 97, 99, 116] rfl
+  | comment v =>
+    have hne : (35 :: v) ≠ [] := by simp
+    refine strip_line 35 v ((35 :: v).getLast hne) (by decide) (List.getLast?_eq_some_getLast hne) ?_
+    cases v with
+    | nil => simp only [List.getLast_singleton]; decide
+    | cons a r =>
+      have : (35 :: a :: r).getLast (by simp) = (a :: r).getLast (by simp) := by simp
+      rw [this]
+      exact hf _ (List.getLast?_eq_some_getLast (by simp))
 
 /-! ## one line, one field -/
 
@@ -280,7 +308,8 @@ theorem toDecInt_ne_plus (n : Int) : toDecInt n ≠ [43] := by
   simp [parseInt?, parseNat?] at this
 
 /-- a well-formed line applies its field to the entry being built and the reader goes on -/
-theorem getLinkItem_field (base : Str) (fuel : Nat) (st : LinkState) (f : Field) (hf : f.Ok) (rest : List Str) :
+theorem getLinkItem_field (base : Str) (fuel : Nat) (st : LinkState) (f : Field) (hf : f.Ok) (rest : List Str)
+    (hc : ∀ v, f = .comment v → st.donePath = false) :
     getLinkItem base (fuel + 1) st ((f.text ++ [10]) :: rest) = getLinkItem base fuel (f.apply base st) rest := by
   have hs := f.strip_text hf
   obtain ⟨l1, l2, l3, l4, l5, l6, l7, l8, l9, l10⟩ := lits
@@ -304,6 +333,15 @@ theorem getLinkItem_field (base : Str) (fuel : Nat) (st : LinkState) (f : Field)
   | admin v => simp [Field.text, Field.apply, isPrefixB, l1, l2, l3, l4, l5, l6, l7, l8]
   | url v => simp [Field.text, Field.apply, isPrefixB, l1, l2, l3, l4, l5, l6, l7, l8, l9]
   | ttl v => simp [Field.text, Field.apply, isPrefixB, l1, l2, l3, l4, l5, l6, l7, l8, l9, l10]
+  | abstract v =>
+    have hv : ¬ v.getLast? = some 92 := hf.2
+    have hr : readAbstract (rest.length + 1) [] v rest = (v, rest) := by simp [readAbstract, hv]
+    simp only [Field.text, Field.apply, setAbstract, isPrefixB, l1, l2, l3, l4, l5, l6, l7]
+    simp [hr]
+    split <;> rfl
+  | comment v =>
+    have hd := hc v rfl
+    simp [Field.text, Field.apply, hd]
 
 /-! ## blocks and files -/
 
@@ -329,8 +367,22 @@ def applyAll (base : Str) (st : LinkState) (fs : List Field) : LinkState := fs.f
 def blockEntry (dirSel base : Str) (cap : Option Str) (fs : List Field) : Option LinkEntry :=
   finishEntry base (applyAll base (freshLink dirSel cap) fs)
 
+def Field.isPath : Field → Bool
+  | .path _ => true
+  | _ => false
+
+/-- comment lines stand before the block's `Path=` line (a `#` line after it closes the block: it is then not a
+    line *of* the block); `done` = a path is already known when the lines start (a `.cap` file) -/
+def WellPlaced (done : Bool) : List Field → Prop
+  | [] => True
+  | f :: fs => (match f with | .comment _ => done = false | _ => True) ∧ WellPlaced (done || f.isPath) fs
+
+theorem apply_donePath (base : Str) (st : LinkState) (f : Field) :
+    (f.apply base st).donePath = (st.donePath || f.isPath) := by
+  cases f <;> simp [Field.apply, Field.isPath]
+
 theorem getLinkItem_fields (base : Str) (fs : List Field) (hfs : ∀ f ∈ fs, f.Ok) (fuel : Nat) (st : LinkState)
-    (rest : List Str) :
+    (hw : WellPlaced st.donePath fs) (rest : List Str) :
     getLinkItem base (fuel + fs.length) st (renderFields fs ++ rest) =
       getLinkItem base fuel (applyAll base st fs) rest := by
   induction fs generalizing st with
@@ -339,8 +391,10 @@ theorem getLinkItem_fields (base : Str) (fs : List Field) (hfs : ∀ f ∈ fs, f
     have e : fuel + (f :: fs).length = (fuel + fs.length) + 1 := by simp; omega
     rw [e]
     simp only [renderFields, List.map_cons, List.cons_append]
-    rw [getLinkItem_field base _ st f (hfs f (by simp))]
-    exact ih (fun g hg => hfs g (by simp [hg])) _
+    have hc : ∀ v, f = .comment v → st.donePath = false := by
+      intro v hv; subst hv; exact hw.1
+    rw [getLinkItem_field base _ st f (hfs f (by simp)) _ hc]
+    exact ih (fun g hg => hfs g (by simp [hg])) _ (by rw [apply_donePath]; exact hw.2)
 
 theorem getLinkItem_blank (base : Str) (fuel : Nat) (st : LinkState) (rest : List Str) :
     getLinkItem base (fuel + 1) st ([10] :: rest) = some (.cont, finishEntry base st, rest) := by
@@ -358,18 +412,19 @@ theorem getLinkItem_eof (base : Str) (fuel : Nat) (st : LinkState) :
 /-- a block of well-formed lines closed by a blank line: the reader hands back the block's entry and
     the rest of the file, untouched -/
 theorem getLinkItem_block (base : Str) (fs : List Field) (hfs : ∀ f ∈ fs, f.Ok) (fuel : Nat) (st : LinkState)
-    (rest : List Str) :
+    (hw : WellPlaced st.donePath fs) (rest : List Str) :
     getLinkItem base (fuel + 1 + fs.length) st (renderBlock fs ++ rest) =
       some (.cont, finishEntry base (applyAll base st fs), rest) := by
   simp only [renderBlock, List.append_assoc, List.singleton_append]
-  rw [getLinkItem_fields base fs hfs]
+  rw [getLinkItem_fields base fs hfs _ _ hw]
   exact getLinkItem_blank base fuel _ rest
 
 /-- a block that ends with the file (no blank line after it) -/
-theorem getLinkItem_last_block (base : Str) (fs : List Field) (hfs : ∀ f ∈ fs, f.Ok) (fuel : Nat) (st : LinkState) :
+theorem getLinkItem_last_block (base : Str) (fs : List Field) (hfs : ∀ f ∈ fs, f.Ok) (fuel : Nat) (st : LinkState)
+    (hw : WellPlaced st.donePath fs) :
     getLinkItem base (fuel + 1 + fs.length) st (renderFields fs) =
       some (.stop, finishEntry base (applyAll base st fs), []) := by
-  have := getLinkItem_fields base fs hfs (fuel + 1) st []
+  have := getLinkItem_fields base fs hfs (fuel + 1) st hw []
   simp only [List.append_nil] at this
   rw [this]
   exact getLinkItem_eof base fuel _
@@ -385,7 +440,7 @@ theorem renderBlock_length (fs : List Field) : (renderBlock fs).length = fs.leng
     well-formed lines yields, in order, the entry of each block that has a path — each block read
     from a fresh entry, whatever the blocks before it said -/
 theorem processLinkFile_blocks (dirSel base : Str) (bs : List (List Field)) (hbs : ∀ b ∈ bs, ∀ f ∈ b, f.Ok)
-    (fuel : Nat) (hfuel : bs.length < fuel) :
+    (hwp : ∀ b ∈ bs, WellPlaced false b) (fuel : Nat) (hfuel : bs.length < fuel) :
     processLinkFile dirSel base none fuel (renderFile bs) = some (bs.filterMap (blockEntry dirSel base none)) := by
   induction bs generalizing fuel with
   | nil =>
@@ -398,20 +453,21 @@ theorem processLinkFile_blocks (dirSel base : Str) (bs : List (List Field)) (hbs
     rw [renderFile_cons, processLinkFile]
     have hl : (renderBlock b ++ renderFile bs).length + 1 = ((renderFile bs).length + 1) + 1 + b.length := by
       simp [renderBlock_length]; omega
-    rw [hl, getLinkItem_block base b (hbs b (by simp))]
+    rw [hl, getLinkItem_block base b (hbs b (by simp)) _ _ (by simpa [freshLink] using hwp b (by simp))]
     simp only
-    rw [ih (fun b' hb' => hbs b' (by simp [hb'])) k (by simp at hfuel; omega)]
+    rw [ih (fun b' hb' => hbs b' (by simp [hb'])) (fun b' hb' => hwp b' (by simp [hb'])) k (by simp at hfuel; omega)]
     simp only [Option.map_some, List.filterMap_cons, blockEntry]
     cases finishEntry base (applyAll base (freshLink dirSel none) b) <;> simp
 
 /-- a `.cap` file is one block about the file it belongs to: its entry is the file's selector with
     the block's fields applied -/
-theorem processLinkFile_cap (dirSel base sel : Str) (fs : List Field) (hfs : ∀ f ∈ fs, f.Ok) (fuel : Nat) :
+theorem processLinkFile_cap (dirSel base sel : Str) (fs : List Field) (hfs : ∀ f ∈ fs, f.Ok)
+    (hw : WellPlaced true fs) (fuel : Nat) :
     processLinkFile dirSel base (some sel) (fuel + 1) (renderFields fs) =
       some ((blockEntry dirSel base (some sel) fs).toList) := by
   rw [processLinkFile]
   have hl : (renderFields fs).length + 1 = 0 + 1 + fs.length := by simp [renderFields]; omega
-  rw [hl, getLinkItem_last_block base fs hfs]
+  rw [hl, getLinkItem_last_block base fs hfs _ _ (by simpa [freshLink] using hw)]
   simp only [blockEntry]
   cases finishEntry base (applyAll base (freshLink dirSel (some sel)) fs) <;> simp
 
@@ -428,17 +484,17 @@ theorem applyAll_keeps_path (base : Str) (fs : List Field) (st : LinkState) (h :
 
 /-- the key a line sets (`Host=+` and `Port=+`, `Admin=`, `URL=`, `TTL=` set nothing) -/
 def Field.key : Field → Nat
-  | .type _ => 1 | .name _ => 2 | .path _ => 3 | .host _ => 4 | .port _ => 5 | .numb _ => 6 | _ => 0
+  | .type _ => 1 | .name _ => 2 | .path _ => 3 | .host _ => 4 | .port _ => 5 | .numb _ => 6 | .abstract _ => 7 | _ => 0
 
 /-- lines with different keys may stand in either order -/
 theorem apply_comm (base : Str) (st : LinkState) (f g : Field) (h : f.key ≠ g.key ∨ f.key = 0) :
     (g.apply base (f.apply base st)) = (f.apply base (g.apply base st)) := by
-  cases f <;> cases g <;> simp [Field.key] at h <;> simp only [Field.apply, pathLe_eq]
+  cases f <;> cases g <;> simp [Field.key] at h <;> simp only [Field.apply, pathLe_eq, setAbstract_eq]
 
 /-- of two lines with the same key the later one counts -/
 theorem apply_later_wins (base : Str) (st : LinkState) (f g : Field) (h : f.key = g.key) (h0 : f.key ≠ 0)
-    (hp : f.key ≠ 3) :
+    (hp : f.key ≠ 3) (ha : f.key ≠ 7) :
     g.apply base (f.apply base st) = g.apply base st := by
-  cases f <;> cases g <;> simp [Field.key] at h h0 hp <;> rfl
+  cases f <;> cases g <;> simp [Field.key] at h h0 hp ha <;> rfl
 
 end Pyg.Umn
